@@ -68,22 +68,65 @@ deriving Repr, DecidableEq, Inhabited
 /-- AS_TRANS (RFC 6793), the My-AS field of a speaker whose AS does not fit 16 bits. -/
 def asTrans : Nat := 23456
 
-/-- The AS-related part of an OPEN as it is on the wire: the 2-octet My-AS field and the value
-    of the 4-octet-AS capability (code 65), if the OPEN carries one. -/
+/-- one capability inside a capability optional parameter, as far as the FSM reads it:
+    the 4-octet-AS capability (code 65) with its value, or any other capability -/
+inductive Cap where
+  | as4 (v : Nat)
+  | other
+deriving Repr, DecidableEq, Inhabited
+
+/-- an optional parameter of the OPEN: a capability parameter (type 2) with its capabilities in
+    order of appearance, or a parameter of another type.  RFC 5492 leaves the sender free to
+    spread its capabilities over any number of capability parameters, in any order, and to
+    repeat one. -/
+inductive OptParam where
+  | caps (l : List Cap)
+  | unknown
+deriving Repr, DecidableEq, Inhabited
+
+/-- The AS-related part of an OPEN as it is on the wire: the 2-octet My-AS field and the
+    optional parameters in their order. -/
 structure OpenWire where
   version : Nat
   myas    : Nat
-  cap4    : Option Nat
+  params  : List OptParam
   id      : Nat
   hold    : Nat
 deriving Repr, DecidableEq, Inhabited
 
-/-- getASN in fsm.go and the same loop at the top of ValidateOpenMsg: the capability value wins
-    over the My-AS field.  Both callers apply it BEFORE any test that looks at the AS. -/
-def getASN (w : OpenWire) : Nat :=
-  match w.cap4 with
-  | some a => a
-  | none => w.myas
+/-- inner loop of getASN (`for _, c := range paramCap.Capability`): every 4-octet-AS capability
+    overwrites `asn` -/
+def scanCaps (asn : Nat) : List Cap → Nat
+  | [] => asn
+  | .as4 v :: r => scanCaps v r
+  | .other :: r => scanCaps asn r
+
+/-- outer loop of getASN (`for _, p := range m.OptParams`): ALL parameters are visited,
+    parameters that are not capability parameters are skipped -/
+def scanParams (asn : Nat) : List OptParam → Nat
+  | [] => asn
+  | .caps l :: r => scanParams (scanCaps asn l) r
+  | .unknown :: r => scanParams asn r
+
+/-- getASN in fsm.go and the same loops at the top of ValidateOpenMsg: starts from the My-AS
+    field; a 4-octet-AS capability anywhere in the OPEN wins.  Both callers apply it BEFORE any
+    test that looks at the AS. -/
+def getASN (w : OpenWire) : Nat := scanParams w.myas w.params
+
+/-- the semantic content of the optional parameters: the capabilities in order of appearance,
+    whatever parameters carry them -/
+def flatCaps : List OptParam → List Cap
+  | [] => []
+  | .caps l :: r => l ++ flatCaps r
+  | .unknown :: r => flatCaps r
+
+/-- the value of the (last) 4-octet-AS capability, if the OPEN has one -/
+def lastAs4 : List Cap → Option Nat
+  | [] => none
+  | .as4 v :: r => (lastAs4 r).orElse (fun _ => some v)
+  | .other :: r => lastAs4 r
+
+def OpenWire.cap4 (w : OpenWire) : Option Nat := lastAs4 (flatCaps w.params)
 
 def OpenWire.toMsg (w : OpenWire) : OpenMsg := ⟨w.version, getASN w, w.id, w.hold⟩
 
@@ -126,6 +169,7 @@ structure St where
   negHold  : Nat    := 0        -- Timers.State.NegotiatedHoldTime
   lastRx   : Nat    := 0        -- instant the hold timer was last (re)started
   rib      : Nat    := 0        -- prefixes in the peer's Adj-RIB-In
+  remoteAS : Nat    := 0        -- getASN of fsm.recvOpen: becomes State.PeerAs / decides the peer type
 deriving Repr, DecidableEq, Inhabited
 
 def holdtimeOpensent : Nat := 240
@@ -236,7 +280,7 @@ def onActive (c : Cfg) (s : St) (e : Ev) : St × List Out :=
     ({ s with st := .opensent, cur := .p, holdT := some (s.now + holdtimeOpensent), lastRx := s.now },
      [.open .p s.now, .trans .active .opensent s.admin s.now])
   | .outgoing o =>
-    let s1 := armSession c { s with st := .openconfirm, cur := .o } (negotiate c o)
+    let s1 := armSession c { s with st := .openconfirm, cur := .o, remoteAS := o.as } (negotiate c o)
     (s1, [.ka .o s.now, .trans .active .openconfirm s.admin s.now])
   | .enable  => ({ s with admin := .up }, [])
   | .disable =>
@@ -254,7 +298,7 @@ def onOpensent (c : Cfg) (s : St) (e : Ev) : St × List Out :=
     match validateOpen c o with
     | some sub => notifyIdle s 2 sub
     | none =>
-      let s1 := armSession c { s with st := .openconfirm } (negotiate c o)
+      let s1 := armSession c { s with st := .openconfirm, remoteAS := o.as } (negotiate c o)
       (s1, [.ka s.cur s.now, .trans .opensent .openconfirm s.admin s.now])
   | .keepalive | .update _ | .refresh | .notification => notifyIdle s 5 1
   | .badHeader k => notifyIdle s 1 (hdrSub k)
